@@ -149,6 +149,9 @@ def cases(tier, shard, nshards):
                     forms.append(("cyclic", "%s !%% %s" % (src, lit_int(i))))
                 for f, prog in forms:
                     yield Case(prog, dict(base, op=f, i=str(i)))
+                # the same reads on a sequence HELD by a variable (shared when the accessor sees it)
+                yield Case("x := %s; x[%s]" % (src, lit_int(i)), dict(base, op="idx", i=str(i), held=1))
+                yield Case("x := %s; x !! %s" % (src, lit_int(i)), dict(base, op="bangbang", i=str(i), held=1))
                 if abs(i) <= L + 3:
                     bi = bigrep(i)
                     forms = [("idx", "%s[%s]" % (src, bi)), ("bangbang", "%s !! %s" % (src, bi)), ("section", "_[%s](%s)" % (bi, src))]
@@ -167,6 +170,8 @@ def cases(tier, shard, nshards):
             for a in bnds:
                 for b in bnds:
                     yield Case("%s[%s:%s]" % (src, ls(a), ls(b)), dict(base, op="slice", a=None if a is None else str(a), b=None if b is None else str(b)))
+                    if (a is None or abs(a) <= L + 1) and (b is None or abs(b) <= L + 1):
+                        yield Case("x := %s; x[%s:%s]" % (src, ls(a), ls(b)), dict(base, op="slice", a=None if a is None else str(a), b=None if b is None else str(b), held=1))
                     if a is not None and b is not None and abs(a) <= L + 1 and abs(b) <= L + 1:
                         # sections whose bounds are slots: arguments fill the slots left to right
                         meta = dict(base, op="slice", a=str(a), b=str(b), form="slots")
@@ -181,9 +186,13 @@ def cases(tier, shard, nshards):
             # ---- accessors
             for f in ("first", "second", "third", "last", "tail", "butlast", "uncons", "unsnoc", "only", "uncons?", "unsnoc?"):
                 yield Case("%s(%s)" % (f, src), dict(base, op=f))
+                yield Case("x := %s; %s(x)" % (src, f), dict(base, op=f, held=1))
             for k in window:
                 yield Case("%s take %s" % (src, lit_int(k)), dict(base, op="take", i=str(k)))
                 yield Case("%s drop %s" % (src, lit_int(k)), dict(base, op="drop", i=str(k)))
+                yield Case("x := %s; x take %s" % (src, lit_int(k)), dict(base, op="take", i=str(k), held=1))
+                yield Case("x := %s; x drop %s" % (src, lit_int(k)), dict(base, op="drop", i=str(k), held=1))
+                yield Case("x := %s; y := x take %s; x drop %s; [y, x[:]]" % (src, lit_int(k), lit_int(k)), dict(base, op="take_keeps", i=str(k)))
                 yield Case("%s take %s" % (src, bigrep(k)), dict(base, op="take", i=str(k), rep="big"))
                 yield Case("%s drop %s" % (src, bigrep(k)), dict(base, op="drop", i=str(k), rep="big"))
             # ---- writes
@@ -297,6 +306,8 @@ def expect(m):
         return ("exact", ["l", F])
     if op == "refused_write":
         return want_slice(kind, E, None, None)
+    if op == "take_keeps":
+        return ("pair", want_slice(kind, E, None, geti("i")), want_slice(kind, E, None, None))
     if op == "pop":
         if L == 0:
             return RAISE
